@@ -116,10 +116,10 @@ PROPS['C09'] = dict(
   units=_u09)
 
 # ------------------------------------------------------------------------------------------------ C05
-def _pm(src, name, col='INTRUSIVE_SET', z2=1, flavour=0, idx=0, rows=0, removable=0, vine=0, rep=0, m=4, nv=3, extra=(), tiers=('quick', 'thorough'), weight=3, must=('end',)):
+def _pm(src, name, col='INTRUSIVE_SET', z2=1, flavour=0, idx=0, rows=0, removable=0, vine=0, rep=0, m=4, nv=3, extra=(), tiers=('quick', 'thorough'), weight=3, must=('end',), **kw):
     defs = ['VP_COL=' + col, 'VP_Z2=%d' % z2, 'VP_FLAVOUR=%d' % flavour, 'VP_IDX=%d' % idx, 'VP_ROWS=%d' % rows, 'VP_REMOVABLE=%d' % removable, 'VP_VINE=%d' % vine, 'VP_REP=%d' % rep, 'VP_M=%d' % m, 'VP_NV=%d' % nv] + list(extra)
     cf = ['-U__SSE2__'] if col == 'UNORDERED_SET' else []
-    return U(name, src, defs, tiers=tiers, weight=weight, cflags=cf, must_reach=list(must))
+    return U(name, src, defs, tiers=tiers, weight=weight, cflags=cf, must_reach=list(must), **kw)
 _u05 = []
 _FL = ['boundary', 'ru', 'chain']
 for ci, col in enumerate(_COLS):
@@ -159,7 +159,7 @@ _u06.append(_pm('C06_vine.cpp', 'v_ru_pos_rm', flavour=1, idx=1, vine=1, removab
 _kf6 = _pm('C06_vine.cpp', 'v_ru_pos_rm_kf', flavour=1, idx=1, vine=1, removable=1, m=4, extra=['VP_K=2', 'VP_KF_RU_RM'], weight=8, must=()); _kf6['kf'] = 'C06-ru-swap-after-inner-removal'; _u06.append(_kf6)
 _u06.append(_pm('C06_vine.cpp', 'v_ru_pos_m5k3', flavour=1, idx=1, vine=1, m=5, extra=['VP_K=3'], weight=10, must=('end', 'swap')))
 _u06.append(_pm('C06_vine.cpp', 'v_ru_pos_vector_m5k3', col='VECTOR', flavour=1, idx=1, vine=1, m=5, extra=['VP_K=3'], weight=10, must=('end', 'swap')))
-_u06.append(_pm('C06_vine.cpp', 'v_ru_pos_vector_graph_m8k2', col='VECTOR', flavour=1, idx=1, vine=1, m=8, nv=4, extra=['VP_K=2', 'VP_MAXDIM=1', 'VP_FORKCELL'], tiers=['thorough'], weight=40, must=('end', 'swap')))
+_u06.append(_pm('C06_vine.cpp', 'v_ru_pos_vector_graph_m8k2', col='VECTOR', flavour=1, idx=1, vine=1, m=8, nv=4, extra=['VP_K=2', 'VP_MAXDIM=1', 'VP_FORKCELL'], tiers=['thorough'], weight=40, jobs=16, must=('end', 'swap')))
 _u06.append(_pm('C06_vine.cpp', 'v_ru_pos_nobarcode', flavour=1, idx=1, vine=1, m=4, extra=['VP_K=2', 'VP_BARCODE=0'], weight=4, must=('end', 'swap')))
 _u06.append(_pm('C06_vine.cpp', 'v_ru_pos_nobarcode_m5k3', flavour=1, idx=1, vine=1, m=5, extra=['VP_K=3', 'VP_BARCODE=0'], tiers=['thorough'], weight=10, must=('end', 'swap')))
 for fl in (1, 2):
@@ -362,7 +362,8 @@ NOTES = 'Clauses outside every claim: real thread schedules/TBB execution (engin
 # The units below are larger variants that were written but NOT validated to finish inside the per-unit cap on this machine (several ran into
 # it). A registered command must never answer INCONCLUSIVE on the unchanged tree, so they are kept out of the quick and thorough tiers and run
 # only with `./check <ID> --tier deep` (not in MANIFEST.json; budget 3 h per unit). Promote a unit by deleting it from this list once it passed.
-DEEP_ONLY = [["C10", "zp_ops_p31"],
+DEEP_ONLY = [["C03", "monotonise_n4_full"],
+  ["C10", "zp_ops_p31"],
   ["C10", "zp_ops_p251"],
   ["C10", "zp_elem_p31"],
   ["C10", "zp_elem_p251"],
@@ -473,8 +474,7 @@ for _pid, _name in DEEP_ONLY:
     for _u in PROPS[_pid]['units']:
         if _u['name'] == _name: _u['tiers'] = ['deep']
 
-_TH = {'C03': 'quick tier + monotonisation on the full tetrahedron (4 vertices, values 0..1)',
-       'C06': 'quick tier + RU with VECTOR columns: every filtration of 8 cells of dimension <= 1 on 4 vertices (enumerated) x 2 swaps; RU without stored barcode m=5 k=3',
+_TH = {'C06': 'quick tier + RU with VECTOR columns: every filtration of 8 cells of dimension <= 1 on 4 vertices (enumerated) x 2 swaps; RU without stored barcode m=5 k=3',
        'C07': 'quick tier + graph zigzags on 4 vertices with 8 edge arrows (right-filtration oracle, 3.7M paths)',
        'C12': 'quick tier + complete graph on 6 vertices: weights in {1,2} (dense table); 12 free weights in {1,2,3} with the triangle {0,1,2} at 1, for both neighbour-table implementations (enumerated, 531k inputs each)'}
 for _pid, _P in PROPS.items():
